@@ -579,6 +579,15 @@ type NamesCase struct {
 	Param string `json:"param"`
 	Field string `json:"field"`
 	Local string `json:"local"`
+	// further declaration forms × the same names (seeded change C05-8: a newly accepted form that
+	// bypasses the reserved-word guard); "" = the form is absent
+	GlobalInit string `json:"global_init,omitempty"` // var X uint64 = 4
+	GlobalZero string `json:"global_zero,omitempty"` // var X uint64
+	GlobalPair string `json:"global_pair,omitempty"` // var X, X2 uint64
+	Named      string `json:"named,omitempty"`       // type X uint64
+	Alias      string `json:"alias,omitempty"`       // type X = []uint64
+	Iface      string `json:"iface,omitempty"`       // type X interface{ … }
+	Method     string `json:"method,omitempty"`      // func (r *Type) X() uint64
 }
 
 var hostileNames = []string{"as", "at", "by", "cofix", "end", "exists", "exists2", "fix", "forall", "fun", "IF", "in", "let", "match", "mod", "Prop", "Set", "then", "Type",
@@ -588,6 +597,32 @@ var hostileNames = []string{"as", "at", "by", "cofix", "end", "exists", "exists2
 var swKeywordNames = "c05NoCoqKeywordNames"
 
 func renderNames(c NamesCase) string {
+	extra := ""
+	if c.GlobalInit != "" {
+		extra += fmt.Sprintf("\nvar %s uint64 = 4\n", c.GlobalInit)
+	}
+	if c.GlobalZero != "" {
+		extra += fmt.Sprintf("\nvar %s uint64\n", c.GlobalZero)
+	}
+	if c.GlobalPair != "" {
+		extra += fmt.Sprintf("\nvar %s, %s2 uint64\n", c.GlobalPair, c.GlobalPair)
+	}
+	if c.Named != "" {
+		extra += fmt.Sprintf("\ntype %s uint64\n", c.Named)
+	}
+	if c.Alias != "" {
+		extra += fmt.Sprintf("\ntype %s = []uint64\n", c.Alias)
+	}
+	if c.Iface != "" {
+		extra += fmt.Sprintf("\ntype %s interface {\n\tim() uint64\n}\n", c.Iface)
+	}
+	if c.Method != "" {
+		extra += fmt.Sprintf("\nfunc (r *%s) %s() uint64 {\n\treturn r.%s\n}\n", c.Type, c.Method, c.Field)
+	}
+	return renderNamesBase(c) + extra
+}
+
+func renderNamesBase(c NamesCase) string {
 	return fmt.Sprintf("package main\n\ntype %s struct {\n\t%s uint64\n}\n\nconst %s uint64 = 3\n\nfunc %s(%s uint64) uint64 {\n\t%s := %s{%s: %s}\n\treturn %s.%s + %s\n}\n",
 		c.Type, c.Field, c.Const, c.Func, c.Param, c.Local, c.Type, c.Field, c.Param, c.Local, c.Field, c.Const)
 }
@@ -612,7 +647,7 @@ func runNames(c NamesCase) (string, bool) {
 		}
 		for i := 0; i+1 < len(toks); i++ {
 			atStart := i == 0 || toks[i-1].Kind == vread.TDot
-			if atStart && toks[i].Kind == vread.TIdent && toks[i].Text == "Definition" && (toks[i+1].Kind != vread.TIdent || isReservedName(toks[i+1].Text)) {
+			if atStart && toks[i].Kind == vread.TIdent && (toks[i].Text == "Definition" || toks[i].Text == "Notation") && (toks[i+1].Kind != vread.TIdent || isReservedName(toks[i+1].Text)) {
 				return fmt.Sprintf("a definition with the unreadable name %s is emitted\n--- Go ---\n%s\n--- emitted ---\n%s", toks[i+1], src, tr.Text), true
 			}
 		}
@@ -628,6 +663,16 @@ func runNames(c NamesCase) (string, bool) {
 	}
 	if rejected == 0 {
 		want := []string{c.Type, c.Const, c.Func}
+		for _, n := range []string{c.GlobalInit, c.Named, c.Alias, c.Iface} {
+			if n != "" {
+				want = append(want, n)
+			}
+		}
+		if c.Method != "" {
+			want = append(want, c.Type+"__"+c.Method)
+		}
+		sort.Strings(got)
+		sort.Strings(want)
 		if strings.Join(got, " ") != strings.Join(want, " ") {
 			return fmt.Sprintf("definitions seen: %v, want %v\n%s", got, want, tr.Text), true
 		}
@@ -647,6 +692,11 @@ func TestHostileNames(t *testing.T) {
 	rapid.Check(t, func(t *rapid.T) {
 		names := rapid.Permutation(hostileNames).Draw(t, "names")
 		c := NamesCase{Func: names[0], Type: names[1], Const: names[2], Param: names[3], Field: names[4], Local: names[5]}
+		for i, p := range []*string{&c.GlobalInit, &c.GlobalZero, &c.GlobalPair, &c.Named, &c.Alias, &c.Iface, &c.Method} {
+			if gen.Chance(t, "extraform", 35) {
+				*p = names[6+i]
+			}
+		}
 		if ev.SwitchOn(swKeywordNames) {
 			// only positions that become Gallina identifiers matter: keep reserved words out of them
 			k := 6
